@@ -22,8 +22,6 @@ silence a finding.  Deliberate exclusions (DESIGN.md sections 4, 5 and the build
 Every choice comes from the Rng that is passed in (SplitMix64, vlib.Rng).
 """
 
-import os
-
 ESC = b'\x1b'
 OPTIONS = ['ai', 'aw', 'hist', 'hl', 'hll', 'ic', 'lim', 'order', 'ru', 'shape', 'td', 'wa',
            'autoindent', 'highlight', 'highlightline', 'ignorecase', 'linelimit', 'ruler', 'textdirection', 'writeany', 'history', 'autowrite']
@@ -792,8 +790,7 @@ def helper_stream(r):
     atoms = []
     for _ in range(r.range(0, 3)):
         atoms.append(b':se ' + r.choice(['ai', 'noai', 'hist=%d' % r.choice([0, 1, 2, 50]), 'td=%d' % r.choice([-2, -1, 1, 2]), 'hl', 'nohl', 'order', 'shape', 'ai']).encode() + b'\n')
-    hook = len(atoms) if r.chance(1, 8) else None
-    if hook is not None:            # the \~ register: vi_help runs it as an ex command with the line in register ~
+    if r.chance(1, 8):              # the \~ register: vi_help runs it as an ex command with the line in register ~
         atoms.append(b':rs \\~\n' + r.choice(TILDE_HOOKS).encode() + b'\n.\n')
     for _ in range(r.choice([1, 2, 3, 5, 8, 12])):
         t = r.below(20)
@@ -809,38 +806,7 @@ def helper_stream(r):
             atoms.append(vi_atom(r, nl))
         if sum(len(a) for a in atoms) > 1500:       # every key redraws the line: a few thousand keys on lines of a thousand bytes take seconds
             break
-    if not os.environ.get('C05_CUT_CHAR'):
-        if hook is not None and tilde_cut(atoms, files):
-            atoms[hook] = b''
-        atoms = [a for a in atoms if a and not msg_cut(a, atoms, files)]
-    return atoms, files, rows, cols
-
-
-def msg_cut(atom, atoms, files):
-    """Second site of the same root cause (fixes/C05-cut-char.patch, finding candidate KF-CUT-CHAR): in visual mode a
-    message is copied into vi_msg[512] with snprintf; one of 512 bytes or more is cut, possibly after the first byte(s)
-    of a three- or four-byte character, and the renderer reads past the array.  Messages that long come from printing
-    a long line (ex print commands typed at the ':' prompt), from a failing search for a long keyword and from gf / gl
-    on a long word.  True for such an atom when the stream contains a three- or four-byte character at all; the
-    caller drops the atom (C05_CUT_CHAR=1 in the environment keeps everything, to test the repair)."""
-    if not (any(b >= 0xe0 for a in atoms for b in a) or any(b >= 0xe0 for v in files.values() for b in v)):
-        return False
-    if atom[:1] == b':' and not atom.startswith((b':se ', b':rs ', b':ec ')):
-        return True
-    if atom[:1] in (b'/', b'?') and len(atom) > 400:
-        return True
-    return atom.lstrip(b'0123456789') in (b'gf', b'gl')
-
-
-def tilde_cut(atoms, files):
-    """Classifier of one root cause on the unchanged tree (fixes/C05-cut-char.patch, finding candidate
-    KF-CUT-CHAR): with the \\~ register defined, ^A keeps the first 63 bytes of the register's answer in cmp[64]
-    (snprintf, so possibly the first bytes of a multi-byte character only) and a second ^A right after it inserts them;
-    the line then ends inside a character and the renderer reads past its end.  True when the stream defines the
-    register, types ^A ^A and contains a multi-byte character at all; the caller then leaves the register undefined
-    (C05_CUT_CHAR=1 in the environment keeps such streams, to test the repair)."""
-    keys = b''.join(atoms)
-    return b':rs \\~\n' in keys and b'\x01\x01' in keys and (any(b > 0x7f for b in keys) or any(b > 0x7f for v in files.values() for b in v))
+    return [a for a in atoms if a], files, rows, cols
 
 
 # ---------------------------------------------------------------------------------------------
